@@ -222,6 +222,39 @@ def _adsorbate(spec, model):
     return {'confirmed': False, 'error': 'case not found'}
 
 
+def alpha_s_self_cases():
+    """alpha-s of an exactly generated (BET) isotherm against itself returns the reference area, slope = reference loading at
+    the reducing pressure and a perfect correlation, for all four combinations of sample and reference branch (both branches
+    carry the same curve, stored in measurement order)"""
+    import pygaps
+    import pygaps.characterisation as pgc
+    pygaps.logger.disabled = True
+    up = numpy.linspace(0.02, 0.9, 45)
+    n_m, c = 5.0, 100.0
+    f = lambda x: n_m * c * x / ((1 - x) * (1 - x + c * x))
+    pp = list(up) + list(up[::-1])
+    iso = pygaps.PointIsotherm(pressure=pp, loading=[f(x) for x in pp], branch=[0] * 45 + [1] * 45, material='pgv_c14', adsorbate='nitrogen', temperature=77.355,
+                               pressure_mode='relative', pressure_unit=None, loading_basis='molar', loading_unit='mmol', material_basis='mass', material_unit='g',
+                               temperature_unit='K')
+    ref_area = pgc.area_BET(iso)['area']
+    for b, br in (('ads', 'ads'), ('des', 'ads'), ('ads', 'des'), ('des', 'des')):
+        try:
+            res = pgc.alpha_s(iso, iso, reference_area='BET', branch=b, branch_ref=br, t_limits=(0.3, 2.0))['results']
+            ok = len(res) == 1 and numpy.isclose(res[0]['area'], ref_area, rtol=1e-6) and numpy.isclose(res[0]['slope'], f(0.4), rtol=1e-4) and res[0]['corr_coef'] > 0.999999
+            detail = '' if ok else f"area {[float(r['area']) for r in res]} (reference {float(ref_area):.2f}), slope {[float(r['slope']) for r in res]} (reference loading at 0.4: {f(0.4):.3f})"
+        except Exception as exc:
+            ok, detail = False, f"{type(exc).__name__}: {exc}"[:160]
+        yield {'name': f"alpha_s_against_itself|branch={b},branch_ref={br}", 'ok': bool(ok), 'detail': detail}
+
+
+@replayer('c14.alpha_self')
+def _alpha_self(spec, model):
+    for r in alpha_s_self_cases():
+        if r['name'] == spec['name']:
+            return {'confirmed': not r['ok'], 'observed': r['detail'], 'expected': 'reference area, slope = reference loading at the reducing pressure'}
+    return {'confirmed': False, 'error': 'case not found'}
+
+
 @replayer('c14.branch')
 def _branch(spec, model):
     """alpha-s with the requested branch / reference branch: the reported alpha curve is n_ref(p) / n_ref(reducing pressure), both
